@@ -1,5 +1,6 @@
 from .. import common, mir
 from ..rules import c12
+from .. import witness
 
 
 def run(tier, replay=None):
@@ -9,4 +10,5 @@ def run(tier, replay=None):
     rep.configs = cfgs
     for cfg in cfgs:
         c12.run(rep, mir.load(cfg), cfg)
+    witness.run(rep, "C12-R4")
     return rep.finish("proof", "memory obligations of all unsafe code", "./check C12 %s" % tier)
